@@ -71,6 +71,8 @@ func (r *EntityLocal) GetOrAddFeature(featureType model.FeatureTypeType, role mo
 		return f
 	}
 
+	verifPoint("GetOrAddFeature.afterMiss", r)
+
 	r.mux.Lock()
 	defer r.mux.Unlock()
 
@@ -168,6 +170,7 @@ func (r *EntityLocal) AddUseCaseSupport(
 		Entity: r.address.Entity,
 	}
 
+	verifPoint("UseCase.afterCopy", r)
 	cloneUseCaseLists(data)
 	data.AddUseCaseSupport(address, actor, useCaseName, useCaseVersion, useCaseDocumemtSubRevision, useCaseAvailable, scenarios)
 
@@ -212,6 +215,7 @@ func (r *EntityLocal) SetUseCaseAvailability(
 		Entity: r.address.Entity,
 	}
 
+	verifPoint("UseCase.afterCopy", r)
 	cloneUseCaseLists(data)
 	data.SetAvailability(address, actor, useCaseName, available)
 
@@ -238,6 +242,7 @@ func (r *EntityLocal) RemoveUseCaseSupport(
 		Entity: r.address.Entity,
 	}
 
+	verifPoint("UseCase.afterCopy", r)
 	cloneUseCaseLists(data)
 	data.RemoveUseCaseSupport(address, actor, useCaseName)
 
@@ -261,6 +266,7 @@ func (r *EntityLocal) RemoveAllUseCaseSupports() {
 		Entity: r.address.Entity,
 	}
 
+	verifPoint("UseCase.afterCopy", r)
 	cloneUseCaseLists(data)
 	data.RemoveUseCaseDataForAddress(address)
 
